@@ -130,7 +130,7 @@ class PTr(Tr):
 # same-module straight-line helpers are inlined symbolically before translation
 # ------------------------------------------------------------------------------------------------
 # callees the translators map to Lean functions themselves (translated items / modelled primitives): never inlined
-KEEP_CALLS = {'jacobi', 'recurrence_abc', 'zernike_norm', 'kronecker', 'f_qbfs', 'g_qbfs', 'h_qbfs', 'hermite_He', 'hermite_H', 'jacobi_seq',
+KEEP_CALLS = {'Qbfs', 'gamma', 'abc_q2d', 'F_q2d', 'G_q2d', 'f_q2d', 'g_q2d', 'jacobi', 'recurrence_abc', 'zernike_norm', 'kronecker', 'f_qbfs', 'g_qbfs', 'h_qbfs', 'hermite_He', 'hermite_H', 'jacobi_seq',
               'jacobi_der_seq', 'dickson1_seq', 'dickson2_seq', 'optimize_xy_separable', '_as_sequence', 'laguerre', 'laguerre_seq'}
 
 
@@ -187,8 +187,33 @@ def inline_helpers(fn, mod, depth=3):
     return ast.fix_missing_locations(out)
 
 
-def get_def_inlined(mod, name):
-    return inline_helpers(get_def(mod, name), mod)
+def get_def_inlined(mod, name, extra=()):
+    """`extra`: further modules whose single-`return` helpers may be inlined too (e.g. prysm.mathops.sign)"""
+    both = mod if not extra else ast.Module(body=list(mod.body) + [st for e in extra for st in e.body], type_ignores=[])
+    return inline_helpers(positional_calls(get_def(mod, name), both), both)
+
+
+def positional_calls(fn, mod):
+    """calls `h(a, k=b)` to a function `h` defined at the top level of `mod` with keyword arguments -> all-positional calls
+    (so that `F_q2d(n=0, m=m)` and `F_q2d(0, m)` translate alike); a keyword that is not a parameter of `h` is left alone"""
+    import copy
+    sigs = {f.name: [a.arg for a in f.args.args] for f in mod.body
+            if isinstance(f, ast.FunctionDef) and not f.args.vararg and not f.args.kwarg and not f.args.kwonlyargs}
+
+    class Pos(ast.NodeTransformer):
+        def visit_Call(self, node):
+            self.generic_visit(node)
+            if isinstance(node.func, ast.Name) and node.func.id in sigs and node.keywords:
+                params = sigs[node.func.id]
+                slots = dict(zip(params, node.args))
+                for kw in node.keywords:
+                    if kw.arg is None or kw.arg not in params or kw.arg in slots:
+                        return node
+                    slots[kw.arg] = kw.value
+                if list(slots) and sorted(slots, key=params.index) == params[:len(slots)]:
+                    return ast.copy_location(ast.Call(func=node.func, args=[slots[q] for q in params[:len(slots)]], keywords=[]), node)
+            return node
+    return ast.fix_missing_locations(Pos().visit(copy.deepcopy(fn)))
 
 
 def _proj(k, n):
@@ -227,6 +252,7 @@ class Body:
         self.tuple_funcs = dict(tuple_funcs or {})   # callee -> (lean fn, arity of result)
         self.fname = fname                            # prefix of the loop-state accessor abbreviations
         self.prelude = []                             # Lean declarations emitted before the function
+        self.int_hints = set()                        # names read inside `range(...)` bounds: an int literal assigned to one stays an Int
 
     def lets_for_assign(self, s, tr):
         """-> (list of 'let a := b', new tr) for an Assign / AugAssign statement"""
@@ -240,7 +266,8 @@ class Body:
         ints = set(tr.ints)
         lets = []
         if isinstance(t, ast.Name):
-            if tr.is_int(v):
+            lit = isinstance(v, ast.Constant) and isinstance(v.value, int) and not isinstance(v.value, bool)
+            if tr.is_int(v) or (lit and t.id in self.int_hints):
                 # a Python int computed from Python ints stays a Lean Int of the same name
                 lets.append(f'let {t.id} : Int := {tr.int_expr(v)}')
                 env.pop(t.id, None)
@@ -295,7 +322,7 @@ class Body:
         """statements without return / loop -> (lines, tr)"""
         lines = []
         for st in stmts:
-            if isinstance(st, ast.Expr) and isinstance(st.value, ast.Constant) or isinstance(st, ast.Pass):
+            if isinstance(st, ast.Expr) and isinstance(st.value, ast.Constant) or isinstance(st, ast.Pass) or is_identity_prologue(st):
                 continue
             if isinstance(st, ast.If):
                 ls, tr = self.cond_update(st, tr, ind)
@@ -390,13 +417,14 @@ class Body:
         s, rest = stmts[0], stmts[1:]
         if isinstance(s, ast.Expr) and isinstance(s.value, ast.Constant):
             return self.run(rest, tr, ind)
-        if isinstance(s, ast.Pass):
+        if isinstance(s, ast.Pass) or is_identity_prologue(s):
             return self.run(rest, tr, ind)
         if isinstance(s, ast.Return):
             if s.value is None:
                 raise Untranslatable('bare return')
             return self.ret(s.value, tr)
-        if isinstance(s, ast.If) and (_returns(s.body) or _returns(s.orelse or [])):
+        if isinstance(s, ast.If) and (_returns(s.body) or _returns(s.orelse or []) or _has_return(s)):
+            # a branch that returns early somewhere inside and otherwise falls through: the continuation is translated once per branch
             c = tr.cond(s.test)
             orelse = s.orelse or []
             then = self.run(s.body + ([] if _returns(s.body) else rest), tr, ind + '  ')
@@ -414,6 +442,20 @@ class Body:
         if isinstance(value, ast.Tuple):
             return '(' + ', '.join(tr.expr(x) for x in value.elts) + ')'
         return tr.expr(value)
+
+
+def is_identity_prologue(st):
+    """`x = np.asarray(x)` / `x = np.asarray(x, dtype=np.result_type(x, 1.0))`: container / dtype normalisation of a coordinate
+    argument -- the point-wise identity on values (the dtype of the rows is read by separate items)"""
+    if not (isinstance(st, ast.Assign) and len(st.targets) == 1 and isinstance(st.targets[0], ast.Name)):
+        return False
+    nm = st.targets[0].id
+    return ast.unparse(st.value) in (f'np.asarray({nm})', f'np.asarray({nm}, dtype=np.result_type({nm}, 1.0))',
+                                     f'np.asanyarray({nm})', f'np.asarray({nm}, dtype=float)')
+
+
+def _has_return(node):
+    return any(isinstance(n, ast.Return) for n in ast.walk(node))
 
 
 def _returns(stmts):
@@ -442,10 +484,12 @@ def translate_fn(fn, lean_name, int_params, k_params, tr_kwargs=None, tuple_func
         if isinstance(n, ast.Name) and n.id in allow_extra:
             raise Untranslatable(f'body reads {n.id}')
     bd = Body(tr, tuple_funcs=tuple_funcs, fname=lean_name)
+    bd.int_hints = {n.id for c in ast.walk(fn) if isinstance(c, ast.Call) and ast.unparse(c.func) == 'range'
+                    for a in c.args for n in ast.walk(a) if isinstance(n, ast.Name)}
     body = bd.run(fn.body, tr)
     binders = ' '.join([f'({p} : Int)' for p in int_params] + [f'({p} : K)' for p in k_params]
                        + [f'({p} : Bool)' for p in bool_params])
-    pre = ''.join(x + '\n' for x in bd.prelude)
+    pre = ''.join(x + '\n' for x in dict.fromkeys(bd.prelude))
     return f'{pre}def {lean_name} {extra_binders}{binders} : {ret} :=\n  {body}\n'
 
 
@@ -597,6 +641,210 @@ def generate(repo):
                             extra_binders='(sqrt : K → K) ')
     g.item('Qbfs', 'prysm/polynomials/qpoly.py:Qbfs', lambda: get_def(qp, 'Qbfs'), qbfs,
            f'def qbfs (sqrt : K → K) (n : Int) (x : K) : K := {M}.qbfs sqrt n.toNat x')
+
+    # ---- 2D-Q: A.3 coefficients, gamma, F, G, f, g (recursive calls -> the model's functions) and the whole body of Q2d
+    mo, _ = load(repo, 'prysm/mathops.py')
+
+    def abc_q2d():
+        return translate_fn(get_def_inlined(qp, 'abc_q2d', [mo]), 'abcQ2d', [], ['n', 'm'], ret='K × K × K')
+    g.item('abc_q2d', 'prysm/polynomials/qpoly.py:abc_q2d', lambda: get_def(qp, 'abc_q2d'), abc_q2d,
+           f'def abcQ2d (n m : K) : K × K × K := {M}.q2dAbcK n m')
+
+    def gamma_body():
+        return translate_fn(get_def_inlined(mo, 'gamma'), 'gammaBody', ['n', 'm'], [], tr_kwargs={'intfuncs': {'gamma': f'{M}.q2dGammaI'}})
+    g.item('gamma', 'prysm/mathops.py:gamma', lambda: get_def(mo, 'gamma'), gamma_body,
+           f'def gammaBody (n m : Int) : K := {M}.q2dGammaI n m')
+
+    SPECIAL = {'special.factorial2': f'{M}.fact2I', 'special.factorial': f'{M}.factI', 'gamma': f'{M}.q2dGammaI'}
+    for (py, lean, model) in (('G_q2d', 'q2dGBody', 'q2dGI'), ('F_q2d', 'q2dFBody', 'q2dFI')):
+        def build(py=py, lean=lean):
+            return translate_fn(get_def_inlined(qp, py, [mo]), lean, ['n', 'm'], [], tr_kwargs={'intfuncs': SPECIAL, 'mixed': KRON})
+        g.item(py, f'prysm/polynomials/qpoly.py:{py}', (lambda py=py: get_def(qp, py)), build,
+               f'def {lean} (n m : Int) : K := {M}.{model} n m')
+
+    FG = {'F_q2d': f'{M}.q2dFI', 'G_q2d': f'{M}.q2dGI', 'f_q2d': f'{M}.q2dfI sqrt', 'g_q2d': f'{M}.q2dgI sqrt'}
+    for (py, lean, model) in (('g_q2d', 'q2dgBody', 'q2dgI'), ('f_q2d', 'q2dfBody', 'q2dfI')):
+        def build(py=py, lean=lean):
+            return translate_fn(get_def_inlined(qp, py, [mo]), lean, ['n', 'm'], [], tr_kwargs={'intfuncs': FG, 'sqrt': 'sqrt'},
+                                extra_binders='(sqrt : K → K) ')
+        g.item(py, f'prysm/polynomials/qpoly.py:{py}', (lambda py=py: get_def(qp, py)), build,
+               f'def {lean} (sqrt : K → K) (n m : Int) : K := {M}.{model} sqrt n m')
+
+    def q2d():
+        fn = get_def_inlined(qp, 'Q2d', [mo])
+        return translate_fn(fn, 'q2d', ['n', 'm'], ['r', 't'],
+                            tr_kwargs={'intfuncs': {'f_q2d': f'{M}.q2dfI sqrt', 'g_q2d': f'{M}.q2dgI sqrt'}, 'mixed': {'Qbfs': ('qbfs sqrt', 'ik')},
+                                       'unary': {'np.sin': 'sinf', 'np.cos': 'cosf'}, 'sqrt': 'sqrt'},
+                            tuple_funcs={'abc_q2d': ('abcQ2d', 3)}, extra_binders='(sinf cosf sqrt : K → K) ')
+    g.item('Q2d', 'prysm/polynomials/qpoly.py:Q2d', lambda: get_def(qp, 'Q2d'), q2d,
+           f'def q2d (sinf cosf sqrt : K → K) (n m : Int) (r t : K) : K :=\n'
+           f'  {M}.q2d sqrt n.toNat m r (if m < 0 then sinf (Num.ofInt (Int.natAbs m) * t) else cosf (Num.ofInt (Int.natAbs m) * t))')
+
+    # ---- the cosine (a) and the sine (b) halves of the 2D-Q sum are the same code up to a <-> b
+    def q2d_branches_symmetric():
+        """compute_z_zprime_Q2d: the `if Na >= 0:` block, with a -> b in every identifier (Na->Nb, a_coef->b_coef, alphas_a->alphas_b,
+        Sa->Sb, Sprimea->Sprimeb), is the `if Nb >= 0:` block: same guards (also of the m == 1 correction), same constants, same indices.
+        None when the two blocks are not found in this shape."""
+        fn = get_def(qp, 'compute_z_zprime_Q2d')
+        blocks = {}
+        for n in ast.walk(fn):
+            if isinstance(n, ast.If) and isinstance(n.test, ast.Compare) and isinstance(n.test.left, ast.Name) and n.test.left.id in ('Na', 'Nb') \
+                    and any(isinstance(c, ast.Call) and 'clenshaw' in ast.unparse(c.func) for c in ast.walk(n)):
+                blocks.setdefault(n.test.left.id, []).append(n)
+        if sorted(blocks) != ['Na', 'Nb'] or len(blocks['Na']) != 1 or len(blocks['Nb']) != 1:
+            return None
+        ren = {'Na': 'Nb', 'a_coef': 'b_coef', 'alphas_a': 'alphas_b', 'Sa': 'Sb', 'Sprimea': 'Sprimeb'}
+
+        class R(ast.NodeTransformer):
+            def visit_Name(self, node):
+                return ast.copy_location(ast.Name(id=ren.get(node.id, node.id), ctx=node.ctx), node)
+        import copy
+        a = R().visit(copy.deepcopy(blocks['Na'][0]))
+        return ast.dump(a) == ast.dump(blocks['Nb'][0])
+    g.fact('q2dSumBranchesSymmetric', 'prysm/polynomials/qpoly.py:compute_z_zprime_Q2d', q2d_branches_symmetric)
+
+    # ---- the m = 1 correction of the 2D-Q sum (Forbes B.7): guard and constants of every `S -= c * alphas[k][i]` under `if m == M and N > K`
+    def q2d_m1_correction():
+        fn = get_def(qp, 'compute_z_zprime_Q2d')
+        rows = []
+        for n in ast.walk(fn):
+            if not (isinstance(n, ast.If) and isinstance(n.test, ast.BoolOp) and isinstance(n.test.op, ast.And) and len(n.test.values) == 2):
+                continue
+            c1, c2 = n.test.values
+            if not (isinstance(c1, ast.Compare) and ast.unparse(c1.left) == 'm' and len(c1.ops) == 1 and isinstance(c1.ops[0], ast.Eq)
+                    and isinstance(c1.comparators[0], ast.Constant)):
+                continue
+            if not (isinstance(c2, ast.Compare) and isinstance(c2.left, ast.Name) and len(c2.ops) == 1 and isinstance(c2.comparators[0], ast.Constant)
+                    and isinstance(c2.comparators[0].value, int)):
+                raise Untranslatable(f'guard {ast.unparse(n.test)}')
+            k = c2.comparators[0].value
+            if isinstance(c2.ops[0], ast.GtE):
+                k -= 1                                   # N >= k  is  N > k - 1
+            elif not isinstance(c2.ops[0], ast.Gt):
+                raise Untranslatable(f'guard {ast.unparse(n.test)}')
+            if n.orelse:
+                raise Untranslatable('correction with an else branch')
+            for st in n.body:
+                if not (isinstance(st, ast.AugAssign) and isinstance(st.op, ast.Sub) and isinstance(st.value, ast.BinOp) and isinstance(st.value.op, ast.Mult)):
+                    raise Untranslatable(f'statement {ast.unparse(st)}')
+                from fractions import Fraction
+                cst, arr = st.value.left, st.value.right
+                if isinstance(cst, ast.BinOp) and isinstance(cst.op, ast.Div) and all(isinstance(q, ast.Constant) and isinstance(q.value, int) for q in (cst.left, cst.right)):
+                    fr = Fraction(cst.left.value, cst.right.value)
+                elif isinstance(cst, ast.Constant) and isinstance(cst.value, (int, float)):
+                    fr = Fraction(repr(cst.value))
+                else:
+                    raise Untranslatable(f'constant {ast.unparse(cst)}')
+                if not (isinstance(arr, ast.Subscript) and isinstance(arr.value, ast.Subscript) and isinstance(arr.slice, ast.Constant)
+                        and isinstance(arr.value.slice, ast.Constant)):
+                    raise Untranslatable(f'operand {ast.unparse(arr)}')
+                rows.append((c1.comparators[0].value, k, fr.numerator, fr.denominator, arr.value.slice.value, arr.slice.value))
+        if not rows:
+            raise Untranslatable('no `if m == … and N… > …:` correction found')
+        body = ', '.join('(' + ', '.join(lean_int(v) for v in r) + ')' for r in rows)
+        return f'def q2dSumM1Correction : List (Int × Int × Int × Int × Int × Int) := [{body}]'
+    g.item('q2d_sum_m1_correction', 'prysm/polynomials/qpoly.py:compute_z_zprime_Q2d', lambda: get_def(qp, 'compute_z_zprime_Q2d'), q2d_m1_correction,
+           'def q2dSumM1Correction : List (Int × Int × Int × Int × Int × Int) :=\n'
+           '  [(1, 2, 2, 5, 0, 3), (1, 2, 2, 5, 1, 3), (1, 2, 2, 5, 0, 3), (1, 2, 2, 5, 1, 3)]')
+
+    # ---- no state that outlives a call in the polynomial modules, other than functools caches of hashable scalars
+    def no_state_between_calls():
+        """True iff, in every prysm/polynomials/*.py:  no `id(...)` call;  no `is` / `is not` between two non-constant expressions;
+        no `global` / `nonlocal`;  and no function stores anything that depends on one of its parameters into state that outlives the
+        call (a module-level container, a function attribute, a mutable default argument) unless it is a table store `T[key] = value`
+        whose key mentions every parameter the value depends on by VALUE (not through id(), .shape, .ndim, len())."""
+        import glob
+        import os
+        ok = True
+        for path in sorted(glob.glob(os.path.join(repo, 'prysm', 'polynomials', '*.py'))):
+            mod = ast.parse(open(path).read())
+            top = set()
+            for st in mod.body:
+                if isinstance(st, (ast.Assign, ast.AnnAssign, ast.AugAssign)):
+                    for t in (st.targets if isinstance(st, ast.Assign) else [st.target]):
+                        top |= {n.id for n in ast.walk(t) if isinstance(n, ast.Name)}
+            funcs = {f.name for f in ast.walk(mod) if isinstance(f, (ast.FunctionDef, ast.AsyncFunctionDef))}
+            for fn in [f for f in ast.walk(mod) if isinstance(f, (ast.FunctionDef, ast.AsyncFunctionDef))]:
+                params = {a.arg for a in fn.args.args + fn.args.kwonlyargs + fn.args.posonlyargs}
+                if fn.args.vararg:
+                    params.add(fn.args.vararg.arg)
+                if fn.args.kwarg:
+                    params.add(fn.args.kwarg.arg)
+                mutable_defaults = set()
+                pos = fn.args.posonlyargs + fn.args.args
+                for a, d in list(zip(pos[len(pos) - len(fn.args.defaults):], fn.args.defaults)) + \
+                        [(a, d) for a, d in zip(fn.args.kwonlyargs, fn.args.kw_defaults) if d is not None]:
+                    if isinstance(d, (ast.List, ast.Dict, ast.Set, ast.ListComp, ast.DictComp)) or \
+                            (isinstance(d, ast.Call) and ast.unparse(d.func).split('.')[-1] in ('dict', 'list', 'set', 'defaultdict', 'OrderedDict')):
+                        mutable_defaults.add(a.arg)
+                # which parameters does each local depend on (fixpoint over the assignments of the body)
+                deps = {q: {q} for q in params}
+
+                def dep(e):
+                    out = set()
+                    for n in ast.walk(e):
+                        if isinstance(n, ast.Name):
+                            out |= deps.get(n.id, set())
+                    return out
+                for _ in range(6):
+                    for n in ast.walk(fn):
+                        if isinstance(n, (ast.Assign, ast.AugAssign, ast.AnnAssign)) and getattr(n, 'value', None) is not None:
+                            for t in (n.targets if isinstance(n, ast.Assign) else [n.target]):
+                                for nm in [q for q in ast.walk(t) if isinstance(q, ast.Name) and isinstance(q.ctx, ast.Store)]:
+                                    deps[nm.id] = deps.get(nm.id, set()) | dep(n.value)
+                        elif isinstance(n, ast.For):
+                            for nm in [q for q in ast.walk(n.target) if isinstance(q, ast.Name)]:
+                                deps[nm.id] = deps.get(nm.id, set()) | dep(n.iter)
+
+                def by_value(key):
+                    """parameters the key expression mentions by value: not under id(), len(), .shape, .ndim, .size"""
+                    hidden = set()
+                    for n in ast.walk(key):
+                        if isinstance(n, ast.Call) and ast.unparse(n.func) in ('id', 'len'):
+                            hidden |= {id(q) for a in n.args for q in ast.walk(a)}
+                        if isinstance(n, ast.Attribute) and n.attr in ('shape', 'ndim', 'size'):
+                            hidden |= {id(q) for q in ast.walk(n.value)}
+                    out = set()
+                    for n in ast.walk(key):
+                        if isinstance(n, ast.Name) and id(n) not in hidden:
+                            out |= deps.get(n.id, set())
+                    return out
+
+                def lasting(root):
+                    return isinstance(root, ast.Name) and ((root.id in top and root.id not in params and root.id not in
+                                                            {q for q in deps if q not in params and q not in top})
+                                                           or root.id in funcs or root.id in mutable_defaults)
+                for n in ast.walk(fn):
+                    if isinstance(n, (ast.Global, ast.Nonlocal)):
+                        ok = False
+                    if isinstance(n, ast.Call) and ast.unparse(n.func) == 'id':
+                        ok = False
+                    if isinstance(n, ast.Compare) and any(isinstance(o, (ast.Is, ast.IsNot)) for o in n.ops):
+                        if not any(isinstance(o, ast.Constant) for o in [n.left] + n.comparators):
+                            ok = False
+                    if isinstance(n, (ast.Assign, ast.AugAssign)):
+                        for t in (n.targets if isinstance(n, ast.Assign) else [n.target]):
+                            for el in (t.elts if isinstance(t, (ast.Tuple, ast.List)) else [t]):
+                                if not isinstance(el, (ast.Subscript, ast.Attribute)):
+                                    continue
+                                root = el
+                                while isinstance(root, (ast.Subscript, ast.Attribute)):
+                                    root = root.value
+                                if not lasting(root) or not dep(n.value) | (dep(el.slice) if isinstance(el, ast.Subscript) else set()):
+                                    continue
+                                table = isinstance(el, ast.Subscript) and not isinstance(el.slice, ast.Slice) and isinstance(n, ast.Assign)
+                                if not (table and dep(n.value) <= by_value(el.slice)):
+                                    ok = False
+                    if isinstance(n, ast.Call) and isinstance(n.func, ast.Attribute) and \
+                            n.func.attr in ('append', 'extend', 'update', 'setdefault', 'insert', 'add', 'appendleft', '__setitem__'):
+                        root = n.func.value
+                        while isinstance(root, (ast.Subscript, ast.Attribute)):
+                            root = root.value
+                        if lasting(root) and set().union(*[dep(a) for a in n.args], *[dep(k.value) for k in n.keywords]):
+                            if not (n.func.attr in ('setdefault', '__setitem__') and len(n.args) == 2 and dep(n.args[1]) <= by_value(n.args[0])):
+                                ok = False
+        return ok
+    g.fact('polynomialsKeepNoStateBetweenCalls', 'prysm/polynomials/*.py', no_state_between_calls)
 
     return g.finish()
 
